@@ -504,10 +504,11 @@ write_open_case(long idx, void *ctx)
    the values stored, and the file must be well-formed */
 #define WPATH "/vmem/c14w.hdf"
 #define WEXT "/vmem/c14w.ext"
-#define NWKIND 13
+#define NWKIND 14
 #define NWPAT 6
 static const char *WKIND[NWKIND] = {"SDS plain",   "SDS RLE",      "SDS deflate",         "SDS skipping-Huffman", "SDS n-bit",   "SDS chunked", "SDS chunked+deflate",
-                                    "SDS unlimited", "SDS external", "image plain",         "image RLE",            "image deflate", "image chunked"};
+                                    "SDS unlimited", "SDS external", "image plain",         "image RLE",            "image deflate", "image chunked",
+                                    "SDS unlimited, shorter than another unlimited one"};
 static const char *WPAT[NWPAT]   = {"selected and released only", "the first 10 values read", "rows 15-16 read", "the last row read", "row 30 read, then row 2", "read completely"};
 static void
 write_session_case(long idx, void *ctx)
@@ -517,6 +518,56 @@ write_session_case(long idx, void *ctx)
     int cfg[4] = {-2, kind, pat, mode};
     mc_set_config(cfg, 4, "write-mode session that only reads");
     mc_set_case("%s (40 x 250 bytes), file opened with %s, %s, closed", WKIND[kind], kind < 9 ? "SDstart(DFACC_RDWR)" : mode ? "Hopen(DFACC_WRITE)" : "Hopen(DFACC_RDWR)", WPAT[pat]);
+    if (kind == 13) {
+        /* records 0-3 exist in "short", 0-9 in "long": a read of record 6 of "short" (refused or not) must not make it longer */
+        static const int32 REC[NWPAT] = {-1, 0, 3, 4, 6, 9};
+        int32 rec = REC[pat], udm[2] = {SD_UNLIMITED, 5}, st[2] = {0, 0}, cn[2] = {10, 5};
+        uint8 lv[50], sv[20], bk[64];
+        for (int i = 0; i < 50; i++)
+            lv[i] = (uint8)(100 + i), sv[i % 20] = (uint8)(7 + i % 20);
+        mc_set_case("two unlimited data sets (10 and 4 records), file opened with SDstart(DFACC_RDWR), %s, closed", rec < 0 ? "nothing read" : rec < 4 ? "an existing record of the short one read" : "a record beyond the end of the short one (but not of the long one) read");
+        vfs_remove_file(WPATH);
+        int32 S = SDstart(WPATH, DFACC_CREATE), l = SDcreate(S, "long", DFNT_UINT8, 2, udm), sh = SDcreate(S, "short", DFNT_UINT8, 2, udm);
+        int   bad = S == FAIL || l == FAIL || sh == FAIL || SDwritedata(l, st, NULL, cn, lv) == FAIL;
+        cn[0]     = 4;
+        bad       = bad || SDwritedata(sh, st, NULL, cn, sv) == FAIL || SDendaccess(l) == FAIL || SDendaccess(sh) == FAIL || SDend(S) == FAIL;
+        if (bad) {
+            mc_harness_error("cannot build the file with two unlimited data sets");
+            return;
+        }
+        S  = SDstart(WPATH, DFACC_RDWR);
+        sh = S == FAIL ? FAIL : SDselect(S, SDnametoindex(S, "short"));
+        if (sh == FAIL) {
+            mc_violation("wsession:open", "SDstart(DFACC_RDWR)/SDselect failed");
+            return;
+        }
+        if (rec >= 0) {
+            st[0] = rec, cn[0] = 1;
+            int32 rc = SDreaddata(sh, st, NULL, cn, bk);
+            if (rec < 4 && (rc == FAIL || memcmp(bk, sv + rec * 5, 5)))
+                mc_violation("wsession:read", "reading record %d of the short data set inside the write-mode session fails or returns other values", (int)rec);
+        }
+        if (SDendaccess(sh) == FAIL || SDend(S) == FAIL) {
+            mc_violation("wsession:close", "SDendaccess/SDend failed");
+            return;
+        }
+        S  = SDstart(WPATH, DFACC_READ);
+        sh = S == FAIL ? FAIL : SDselect(S, SDnametoindex(S, "short"));
+        l  = S == FAIL ? FAIL : SDselect(S, SDnametoindex(S, "long"));
+        char  nm[64];
+        int32 rk, d1[2] = {0, 0}, d2[2] = {0, 0}, nt, na;
+        st[0] = 0, cn[0] = 4;
+        memset(bk, 0xEE, sizeof bk);
+        if (sh == FAIL || l == FAIL || SDgetinfo(sh, nm, &rk, d1, &nt, &na) == FAIL || SDgetinfo(l, nm, &rk, d2, &nt, &na) == FAIL || d1[0] != 4 || d2[0] != 10 ||
+            SDreaddata(sh, st, NULL, cn, bk) == FAIL || memcmp(bk, sv, 20))
+            mc_violation("wsession:content-changed:sds", "two unlimited data sets: after a write-mode session in which the short one was only read (%s) it has %d records (stored: 4), the long one %d (stored: 10), or its values differ",
+                         rec < 0 ? "not at all" : rec < 4 ? "inside" : "beyond its end", (int)d1[0], (int)d2[0]);
+        if (S != FAIL)
+            SDend(S);
+        mc_count("write_session_cases", 1);
+        mc_outcome(mc_hash_i(mc_hash_i(MC_H0, -2), idx));
+        return;
+    }
     static uint8 v[40 * 250], back[40 * 250 + 8];
     for (int i = 0; i < 40 * 250; i++)
         v[i] = (uint8)(kind == 4 ? ((i / 3 + i / 250) & 0x3F) : (i / 7 + (i % 13 == 0 ? i : 0))); /* runs and noise */
